@@ -17,6 +17,8 @@ THEOREMS = [
     ('EAO.Properties.C03', 'EAO.C03.concatVec_block', 'split: the concatenated vector restricted to interval i is the i-th interval solution'),
     ('EAO.Properties.C03', 'EAO.C03.blockSum_optimal', 'split: interval-wise optimal implies optimal for the block sum'),
     ('EAO.Properties.C03', 'EAO.C03.robust_epigraph', 'robust target: the epigraph value is the minimum over the cost samples of -c_s.x'),
+    ('EAO.Properties.C03', 'EAO.C03.infeasible_of_negative_bound', 'Farkas certificate: a sign-correct multiplier vector with negative Lagrangian bound of the zero-objective problem proves that bounds + rows have no common point; evaluated exactly per failed LP instance'),
+    ('EAO.Properties.C03', 'EAO.C03.infeasible_of_negative_bound_bool', 'hence no feasible point with the boolean flags either'),
     ('EAO.Properties.C18', 'EAO.C18.lagrangian_bound', 'certificate theorem: any sign-correct multiplier vector gives an upper bound on every feasible value (used to certify optimality of what the solver returned)'),
 ]
 COMPONENTS = ['translate vs the cvxpy.Problem actually constructed by OptimProblem.optimize (recorded in the harness process)',
@@ -24,7 +26,7 @@ COMPONENTS = ['translate vs the cvxpy.Problem actually constructed by OptimProbl
 RULE = ('random LP and MIP portfolios plus hand-made problems with boolean variables with non-0/1 bounds and duplicated mapping rows; solvers: default, SCIPY (HiGHS), CLARABEL for LP, SCIP for MIP; infeasible stream; '
         'make_soft_problem followed by a plain optimise on the same object; non-trivial = solved problem with >= 1 restriction row binding or boolean variable; distinct by scenario hash')
 ASSUMPTIONS = ['optimality of MIP answers is cross-checked against an independent HiGHS MILP run on the same arrays (validation, not certificate)',
-               'infeasibility claims are cross-checked with HiGHS on the same arrays',
+               'infeasibility claims: certified exactly (Farkas multipliers found numerically, bound evaluated over the rationals, theorem infeasible_of_negative_bound) when the LP relaxation is infeasible; otherwise (infeasible only through integrality) cross-checked with HiGHS on the same arrays',
                'feasibility tolerance 1e-6 (scaled), value tolerance 2e-6 relative']
 MODELLED = ['the numerical solvers (cvxpy back ends): not verified; every answer is checked for feasibility, value identity and by an exact Lagrangian certificate (LP)',
             'the ortools interface is not installed in this sandbox and not exercised']
@@ -245,6 +247,21 @@ def run_case(scn, drv):
         feats.append('reported:' + res)
         if res == 'not successful' and ref['status'] == 'optimal':
             viol('failure_means_infeasible', 'optimisation reported "not successful" but the problem has a feasible point with value %.8g (HiGHS)' % ref['value'], what='false_failure')
+        elif res == 'not successful':
+            # exact infeasibility certificate: multipliers found numerically, bound evaluated over the rationals by the model
+            y = farkas_multipliers(op_snapshot)
+            if y is not None:
+                opj0 = dict(opj)
+                opj0['c'] = ['0'] * len(opj['c'])
+                mm0 = drv.ok({'op': 'lagrangian', 'problem': opj0, 'y': [fs(v) for v in y]})
+                if mm0['signok'] and Fraction(mm0['ub']) < 0:
+                    feats.append('infeasibility-certified-exactly')
+                    r['observed'] = {'farkas_bound': float(Fraction(mm0['ub']))}
+                else:
+                    feats.append('infeasibility-certificate-not-negative')
+            else:
+                feats.append('infeasible-only-with-integrality-or-no-certificate')
+            r['nontrivial'] = True
         return r
     feats.append('solved')
     x = np.asarray(res.x, dtype=float)
@@ -296,6 +313,39 @@ def run_case(scn, drv):
                 feats.append('weak-certificate')
     r['nontrivial'] = mip or len(op_snapshot.cType) > 0
     return r
+
+
+def farkas_multipliers(op):
+    """sign-correct multipliers y minimising the Lagrangian bound of the zero-objective problem (an LP in y, |y| <= 1):
+    a negative optimum is a Farkas certificate of infeasibility of bounds + rows.  Found in floating point here, evaluated
+    EXACTLY by the Lean driver (theorem EAO.C03.infeasible_of_negative_bound)."""
+    from scipy.optimize import linprog
+    n = len(op.c)
+    if op.A is None or op.A.shape[0] == 0:
+        return None
+    A = sp.csr_matrix(op.A)
+    m = A.shape[0]
+    b = np.asarray(op.b, dtype=float)
+    l, u = np.asarray(op.l, dtype=float), np.asarray(op.u, dtype=float)
+    # variables: y (m), t (n);  minimise b.y + sum t ;  t_j >= -(A^T y)_j * l_j  and  t_j >= -(A^T y)_j * u_j
+    AT = A.T.tocsr()
+    G1 = sp.hstack([-sp.diags(l) @ AT, -sp.identity(n)])     # -(l_j (A^T y)_j) - t_j <= 0
+    G2 = sp.hstack([-sp.diags(u) @ AT, -sp.identity(n)])
+    G = sp.vstack([G1, G2]).tocsr()
+    h = np.zeros(2 * n)
+    cost = np.concatenate([b, np.ones(n)])
+    lo = np.array([0.0 if k == 'U' else -1.0 for k in op.cType] + [-np.inf] * n)
+    hi = np.array([0.0 if k == 'L' else 1.0 for k in op.cType] + [np.inf] * n)
+    try:
+        sol = linprog(cost, A_ub=G, b_ub=h, bounds=list(zip(lo, hi)), method='highs')
+    except Exception:
+        return None
+    if sol.status != 0 or sol.fun >= -1e-9:
+        return None
+    y = sol.x[:m]
+    y = np.where(np.array([k == 'U' for k in op.cType]), np.maximum(y, 0), y)
+    y = np.where(np.array([k == 'L' for k in op.cType]), np.minimum(y, 0), y)
+    return y
 
 
 def reference(op):
